@@ -297,6 +297,8 @@ class Planner:
             # call with its own outcome (usually TypeError), after which nothing may have changed
             wired = text if m.binary else ['bytes', text.encode('latin-1', 'replace').decode('latin-1')]
         op = {'op': 'parse', 'mod': mid, 'entry': entry, 'text': wired, 'pos': pos, 'full': full}
+        if text in getattr(self, 'shared_texts', ()):
+            op['textobj'] = 'shared'        # one text object per value for all clients of the run
         rec = self.ref(op)
         fired = rec['fired']
         steps = rec['steps']
@@ -305,7 +307,8 @@ class Planner:
         if fired and terminated:
             if 'user_abort' in kinds and fr.random() < 0.25:
                 tag, p, _ = fr.choice(fired)
-                script['%s@%s' % (tag, p)] = 'abort'
+                # (user code may raise something that is not an Exception: the call is abandoned all the same)
+                script['%s@%s' % (tag, p)] = 'abort' if fr.random() < 0.7 else 'abort_base'
             if 'reenter' in kinds and depth < 2 and fr.random() < 0.35:
                 tag, p, _ = fr.choice(fired)
                 key = '%s@%s' % (tag, p)
@@ -315,6 +318,9 @@ class Planner:
                     sub = self.gen_parse(nmid, kinds, depth + 1)
                     script[key] = {'nest': sub}
                     steps += sub.get('_steps', 0)
+            if 'gc' in kinds and fr.random() < 0.06:
+                tag, p, _ = fr.choice(fired)
+                script.setdefault('%s@%s' % (tag, p), 'gc')
             preds = [f for f in fired if f[2] == 'p']
             if preds and fr.random() < 0.15:
                 tag, p, _ = fr.choice(preds)
@@ -348,6 +354,10 @@ class Planner:
             new['entry'] = e if e != op['entry'] else 'parse'
         else:
             new['full'] = not op['full']
+        if wr.random() < 0.5:
+            # ... passing the very same text object again (incremental use of one buffer)
+            new['textobj'] = 'prev'
+            op['keep_text'] = True
         rec = self.ref(new)
         if rec['out'].get('err') == 'nontermination':
             new['budget'] = U.REF_BUDGET
@@ -412,6 +422,26 @@ class Planner:
             s, g = spec.gen_root(r, named, n_rules=r.randint(2, 4))
             info = ModInfo(next_id, mod_name(next_id) if named else None, None, s, g)
         op = {'op': 'compile', 'mod': next_id, 'desc': info.desc, 'name': info.name, 'extends': info.extends}
+        if r.random() < 0.3:
+            op['include_source'] = True
+        if 'reenter' in kinds and r.random() < 0.3:
+            # user code that runs DURING the construction: a Python section of the grammar (executed by
+            # Grammar()) calls back; the callback parses with an existing module or constructs a helper
+            # grammar of its own -- a construction nested in a construction
+            tag = 'k%d' % next_id
+            info.spec['items'].append({'k': 'py', 'code': 'vx_hook(%s, "", 0)' % json.dumps(tag)})
+            info.desc = spec.render_module(info.spec, info.name, info.parent.name if info.parent else None)
+            info.chain = (info.parent.chain if info.parent else ()) + (info.desc,)
+            op['desc'] = info.desc
+            cands = sorted(i for i, m in self.infos.items() if getattr(m, 'owner', client_names) == client_names)
+            if cands and r.random() < 0.65:
+                sub = self.gen_parse(r.choice(cands), kinds, depth=1)
+            else:
+                hs, hg = spec.gen_root(r, False, n_rules=r.randint(1, 3), hook_p=0.0)
+                hnamed = r.random() < 0.4
+                sub = {'op': 'compile', 'mod': 900 + next_id, 'name': mod_name(900 + next_id) if hnamed else None, 'extends': None,
+                       'desc': spec.render_module(hs, mod_name(900 + next_id) if hnamed else None)}
+            op['script'] = {tag + '@0': {'nest': sub}}
         if 'ctor_fail' in kinds and r.random() < 0.25:
             # a construction that fails half-way: a Python section that raises at exec time
             info.spec['items'].append({'k': 'py', 'code': 'raise RuntimeError("ctor_fail")'})
@@ -440,6 +470,9 @@ class Planner:
             kinds = [k for k in self.kinds_pool if fr.random() < (0.9 if k == 'preempt' else 0.7)]
             n_clients = wr.choice([1, 2, 2, 2, 3, 3, 3, 4])
         hot = wr.choice(sorted(self.infos))
+        # "constants of the application": some texts of the hot module are one object for every client
+        ht = self.infos[hot].texts
+        self.shared_texts = set(wr.sample(ht, min(len(ht), 2))) if (ht and wr.random() < 0.3) else set()
         clients = []
         next_id = max(self.infos) + 1
         # names (re)defined by compile operations, per client, to keep the one documented bound:
